@@ -341,3 +341,122 @@ def run_sweeps(chk, w2c2, prop, entries, builds, tag='sweep', slow_builds=()):
     chk.observe('sweep_calls_exhaustive_2^32', len(set(c[0][0] for c in calls if c[2])), 'set')
     chk.observe('sweep_calls', len(calls), 'set')
     chk.sample({'kind': 'sweep', 'first_calls': [list(map(str, c[0])) for c in calls[:2]], 'digests': [refres[j][:2] for j in sorted(refres)[:1]]})
+
+
+# ---------------------------------------------------------------------------------------------------------------------------------
+# Compile-time constant operands: what the C compiler makes of an opcode applied to constants it can see (constant folding of the
+# emitted expression). The sweeps above feed run-time values and cannot observe this by construction.
+def _trap_tuple(op, args, ps):
+    """does op trap on these constant operand bit patterns? (spec rule, computed in python)"""
+    import struct, math
+    if op in gen.DIVREM:
+        bits = 32 if op.startswith('i32') else 64
+        b = args[1] & ((1 << bits) - 1)
+        if b == 0:
+            return True
+        if op.endswith('div_s') and (args[0] & ((1 << bits) - 1)) == 1 << (bits - 1) and b == (1 << bits) - 1:
+            return True
+        return False
+    if op in gen.TRAPPING_TRUNC:
+        x = struct.unpack('<f', struct.pack('<I', args[0] & 0xffffffff))[0] if ps[0] == F32 else struct.unpack('<d', struct.pack('<Q', args[0] & M64))[0]
+        if math.isnan(x) or math.isinf(x):
+            return True
+        t = math.trunc(x)
+        nb = 32 if op.startswith('i32') else 64
+        lo, hi = (-(1 << (nb - 1)), (1 << (nb - 1)) - 1) if op.endswith('_s') else (0, (1 << nb) - 1)
+        return not (lo <= t <= hi)
+    return False
+
+
+def constfold_module(ops, sets, per_tuple=False):
+    """one exported function per opcode: every non-trapping tuple of constant operands from the tables, results folded into a digest;
+    per_tuple=True: one function per (opcode, tuple) returning the result bits (used to locate a differing tuple)"""
+    m = Module()
+    index = []
+    for op in ops:
+        ps, rs = OPS[op][3], OPS[op][4]
+        canon = op in gen.NAN_NONDET
+        tuples = [[]]
+        for p in ps:
+            tuples = [t + [v] for t in tuples for v in sets[p]]
+        tuples = [t for t in tuples if not _trap_tuple(op, t, ps)]
+        body = [('i64.const', _s64(K1)), ('local.set', 0)]
+        for ti, t in enumerate(tuples):
+            one = []
+            for p, v in zip(ps, t):
+                one.append(('%s.const' % p, v if p in (F32, F64) else wasm.to_signed(v, 32 if p == I32 else 64)))
+            one.append((op,))
+            bits = _to_bits(rs[0], canon)
+            # _to_bits uses scratch locals 6 / 7: here they are locals 1 (f32) and 2 (f64)
+            bits = [((i[0], {6: 1, 7: 2}[i[1]]) if i[0] in ('local.tee', 'local.get') and i[1] in (6, 7) else i) for i in bits]
+            one += bits
+            if per_tuple:
+                m.add_func([], [I64], [(1, I64), (1, F32), (1, F64)], one, export='%s#%d' % (op, ti))
+                index.append((op, ti, t))
+            else:
+                body += one + [('local.get', 0), ('i64.xor',), ('i64.const', _s64(K1)), ('i64.mul',), ('local.tee', 0), ('local.get', 0), ('i64.const', 29), ('i64.shr_u',), ('i64.xor',), ('local.set', 0)]
+        if not per_tuple:
+            body += [('local.get', 0)]
+            m.add_func([], [I64], [(1, I64), (1, F32), (1, F64)], body, export=op)
+            index.append((op, len(tuples), None))
+    return m, index
+
+
+def run_constfold(chk, w2c2, prop, ops, builds, rnd):
+    from . import directed
+    sets = {t: directed.operand_set(t, rnd, extra=3) for t in (I32, I64, F32, F64)}
+    # binary opcodes: a reduced table per operand keeps the cross product around a thousand tuples
+    f32 = lambda x: wasm.f32_bits(x)
+    f64 = lambda x: wasm.f64_bits(x)
+    fl = [0.0, -0.0, 1.0, -1.0, 1.5, -5.5, 255.9, -2147483648.0, 2147483648.0, -9223372036854775808.0, 4294967296.0, 1e-40, float('inf'), float('-inf')]
+    small = {I32: [0, 1, 0xffffffff, 0x80000000, 0x7fffffff, 31, 32, 33, 0x55555555, 0x10000, 0xfffffffe, 7, 0x80000001, 0x00ff00ff, rnd.getrandbits(32), rnd.getrandbits(32)],
+             I64: [0, 1, M64, 1 << 63, (1 << 63) - 1, 63, 64, 65, 0x5555555555555555, 1 << 32, 0xffffffff, 7, (1 << 63) + 1, 0x20000000000001, rnd.getrandbits(64), rnd.getrandbits(64)],
+             F32: [f32(x) for x in fl] + [0x7fc00000, 0x7fa00000, 0xffc00001, 0x7f7fffff, 0x00800000, f32(-123456.75)],
+             F64: [f64(x) for x in fl] + [0x7ff8000000000000, 0x7ff4000000000000, 0xfff8000000000001, 0x7fefffffffffffff, 0x0010000000000000, f64(-123456.75)]}
+    m, index = constfold_module(ops, small)
+    b = m.encode()
+    plan = e2e.Plan(m)
+    d = env.subdir('%s-constfold' % prop.lower())
+    script = 'I 0\n' + ''.join('c 0 %d\n' % plan.fk(op) for op, n, _ in index)
+    st, ref, _ = e2e.run_ref(b, plan, script, d)
+    if st != 'ok':
+        chk.inconclusive('constant-operand module: reference failed (%s): %s' % (st, str(ref)[:300]))
+        return
+    total = sum(n for _, n, _ in index)
+    for btag, cc, cflags, cdefs in builds:
+        bd = d + '/' + btag
+        import os
+        os.makedirs(bd, exist_ok=True)
+        with open(bd + '/nobuiltin.h', 'w') as f:
+            f.write(directed.NOBUILTIN_H)
+        st2, out, r = e2e.build_and_run(w2c2, b, plan, script, bd, cc=cc, cflags=cflags, cdefs=cdefs)
+        files = {'module.wasm': b, 'script.txt': script, 'build.txt': '%s %s' % (cc, cflags)}
+        if st2 != 'ok':
+            from . import directed as _d
+            chk.violation('%s:constfold:%s:%s' % (prop, st2, btag), 'constant-operand module failed at %s (%s): %s' % (st2, btag, str(out)[:1200]), files)
+            continue
+        chk.ev(total)
+        chk.distinct(('constfold', btag))
+        bad = [index[i - 1][0] for i in range(1, min(len(ref), len(out))) if ref[i] != out[i]]
+        for op in bad[:3]:
+            # locate the tuple: per-tuple module for this opcode only
+            pm, pidx = constfold_module([op], small, per_tuple=True)
+            pb = pm.encode()
+            pplan = e2e.Plan(pm)
+            pscript = 'I 0\n' + ''.join('c 0 %d\n' % pplan.fk('%s#%d' % (o, ti)) for o, ti, _ in pidx)
+            pd = bd + '-locate-' + op.replace('.', '_')
+            os.makedirs(pd, exist_ok=True)
+            with open(pd + '/nobuiltin.h', 'w') as f:
+                f.write(directed.NOBUILTIN_H)
+            s1, pref, _ = e2e.run_ref(pb, pplan, pscript, pd)
+            s2, pout, _ = e2e.build_and_run(w2c2, pb, pplan, pscript, pd, cc=cc, cflags=cflags, cdefs=cdefs)
+            what = 'digest over %d constant tuples differs' % dict((o, n) for o, n, _ in index)[op]
+            if s1 == 'ok' and s2 == 'ok':
+                for i in range(1, min(len(pref), len(pout))):
+                    if pref[i] != pout[i]:
+                        o, ti, t = pidx[i - 1]
+                        what = '%s(%s) with CONSTANT operands: reference %s, compiled (%s) %s' % (op, ', '.join(hex(x) for x in t), pref[i].split(' -> ')[-1], btag, pout[i].split(' -> ')[-1])
+                        break
+            chk.violation('%s:constfold:%s' % (prop, op), what, files)
+    chk.observe('constfold_tuples', total, 'set')
+    chk.observe('constfold_opcodes', len(index), 'set')
